@@ -1,5 +1,6 @@
 # C12 — a task's context survives suspension, migration and recycling (three structural clauses; DESIGN.md §5 C12)
 import re
+from engine import core
 from engine.core import AnalysisBroken, P, T, callee_of, callee_short, cond_atoms, loc_of, strip, subexprs
 from engine.kinds import FactFlow, precedes_on_all_paths
 from .common import facts, lib
@@ -16,7 +17,7 @@ EXPLANATION = (
     "slots; it also reports whether the floating-point control state is saved (R2); stacks are mapped and unmapped with "
     "the same size and guard-page adjustment, and a thread object is recycled into the heap it is taken from (R3).")
 ASSUMPTIONS = ["the x86-64 Linux assembly backend is the one compiled (PIKA_HAVE_BOOST_CONTEXT off, checked)", "System V AMD64 ABI: rbx, rbp, r12-r15 and the MXCSR/x87 control bits are callee-saved"]
-FLOORS = {"C12.R1": 3, "C12.R2": 6, "C12.R3": 2, "C12.R4": 2, "C12.R5": 1, "C12.R6": 12}
+FLOORS = {"C12.R1": 3, "C12.R2": 6, "C12.R3": 2, "C12.R4": 2, "C12.R5": 1, "C12.R6": 12, "C12.R7": 2, "C12.R8": 1}
 
 TD = "pika::threads::detail::thread_data"
 CB = "pika::threads::coroutines::detail::context_base"
@@ -84,8 +85,8 @@ def run(rep, tier):
         rep.ok("C12.R1", rb[0], "a recycled task starts with no interruption request, interruption enabled and exit callbacks not run")
     else:
         rep.bad("C12.R1", rb[0], rb[0].loc, "rebind-values", "rebind_base must reset %s (found %s)" % (want, got))
-    CIF = facts(rep, lib("coroutines", "src/detail/coroutine_impl.cpp"), [r"context_base::(context_base|rebind_base|reset|reset_tss)$", r"coroutine_impl::(coroutine_impl|rebind|reset)$",
-                                                                             r"x86_linux_context_impl::(init|rebind_stack)$"], [r"x86_linux_context_impl$"])
+    CIF = facts(rep, lib("coroutines", "src/detail/coroutine_impl.cpp"), [r"context_base::(context_base|rebind_base|reset|reset_tss|yield|invoke)$", r"coroutine_impl::(coroutine_impl|rebind|reset)$",
+                                                                             r"x86_linux_context_impl::(init|rebind_stack|reset_stack|x86_linux_context_impl)$"], [r"x86_linux_context_impl$"])
     for cls, ctorname, rebinders, ex in ((CB, "context_base", ("rebind_base", "reset", "reset_tss"), {"m_caller": "not a mem-initialiser target", "m_allocation_counters": "statistics",
                                                                                                    "continuation_recursion_count_": "only changed through the balanced accessor get_continuation_recursion_count() (scoped ++/--): zero whenever the coroutine is not executing"}),
                                          (CI, "coroutine_impl", ("rebind", "reset"), {})):
@@ -170,6 +171,61 @@ def run(rep, tier):
         rep.ok("C12.R2", rbs[0], "init() and rebind_stack() write the same frame slots (cb_idx, funp_idx) with the same values")
     else:
         rep.bad("C12.R2", rbs[0], rbs[0].loc, "rebind-stack-slots", "rebind_stack() does not rebuild the start frame like init(): %s vs %s" % (s2, s1))
+
+    # ---- R8: the C++ exception-handling state of a task
+    rep.rule("C12.R8", "K8 (what the switch has to carry): the chain of caught exceptions (what std::current_exception() and 'throw;' refer to inside a handler) lives in the "
+             "per-OS-thread __cxa_eh_globals of the C++ runtime. A task may yield inside a catch handler and resume on another worker, so whoever switches contexts has to "
+             "save and restore that state per task; the only way to reach it is abi::__cxa_get_globals() / __cxa_get_globals_fast(). Structural necessary condition: some "
+             "function of the coroutine / threading layers references it (context_base::yield only asserts std::uncaught_exceptions() == 0, in debug builds)")
+    from .common import who_references
+    refs, cpps8, hdrs8 = who_references(rep, r"__cxa_get_globals(_fast)?$", "__cxa_get_globals")
+    refs2, cpps8b, hdrs8b = who_references(rep, r"__cxa_get_globals(_fast)?$", "__cxa_get_globals_fast")
+    users8 = [f for Fx in list(refs) + list(refs2) for f in Fx.fns if f.file.startswith(core.LIBS)]
+    yl = [f for f in CIF.find(r"context_base::yield$") if f.parent == -1] or [f for f in CIF.find(r"context_base::rebind_base$")]
+    if not yl:
+        raise AnalysisBroken("context_base::yield not found")
+    if users8:
+        rep.ok("C12.R8", users8[0], "the exception-handling globals are reached by %s" % users8[0].qname)
+    else:
+        rep.bad("C12.R8", yl[0], yl[0].loc, "eh-globals-not-switched", "no function of the library references __cxa_get_globals: the caught-exception chain of a task that yields inside a "
+                "catch handler stays with the worker it ran on - other tasks on that worker see its exception as std::current_exception(), and the task itself, resumed on "
+                "another worker, finds current_exception() empty ('throw;' would terminate or rethrow a foreign exception)")
+
+    # ---- R7: a context that never ran has no stack yet
+    rep.rule("C12.R7", "K8 (lazily allocated stack; the sibling context_generic_context guards the same two members with 'if (ctx_)'): the constructor leaves the stack "
+             "pointer null and init() allocates the stack right before the first run, so a thread object that was created (suspended) and released without ever running is "
+             "recycled without a stack. Every member that runs on the recycling path (reset_stack, rebind_stack) touches the stack - builds the start frame through m_sp, "
+             "hands m_stack to posix::reset_stack - only where m_stack is known to be non-null")
+    n7s = 0
+    lazy = any(e.get("k") == "return" and any(("m_stack" in a and "nullptr" in a) or a == "this->m_stack" for a, t in
+               (FactFlow(ini[0], eh=False).before.get((b, i)) or frozenset())) for b, i, e in ini[0].all_events())
+    for short in ("reset_stack", "rebind_stack"):
+        fs7 = [f for f in CIF.find(r"x86_linux_context_impl::%s$" % short) if not f.pattern]
+        if not fs7:
+            raise AnalysisBroken("x86_linux_context_impl::%s not instantiated" % short)
+        fn = fs7[0]
+        ff7 = FactFlow(fn, eh=False)
+        uses = []
+        for b, i, e in fn.all_events():
+            if e.get("k") == "write" and re.match(r"^this->m_sp(\[|$)", P(e["lhs"])) and "m_stack" in T(e.get("rhs")):
+                uses.append((b, i, e, "computes the frame address from m_stack"))
+            elif e.get("k") == "call" and callee_short(e) == "reset_stack" and e.get("args") and "m_stack" in T(e["args"][0]):
+                uses.append((b, i, e, "hands m_stack to posix::reset_stack (which reads the watermark through it)"))
+        if not uses:
+            raise AnalysisBroken("x86_linux_context_impl::%s: no use of the stack found" % short)
+        for b, i, e, what in uses:
+            n7s += 1
+            fb = ff7.before.get((b, i)) or frozenset()
+            nonnull = any((re.search(r"m_stack == nullptr$|^nullptr == this->m_stack$", a) and t is False) or (re.search(r"m_stack != nullptr$|^nullptr != this->m_stack$", a) and t is True) or
+                          (a == "this->m_stack" and t is True) for a, t in fb)
+            if nonnull or not lazy:
+                rep.ok("C12.R7", fn, "%s touches the stack only where m_stack is non-null" % short)
+            else:
+                rep.bad("C12.R7", fn, loc_of(e), "never-run-context:" + short, "%s %s without m_stack being known non-null (a debug-only assertion does not count): a thread object created "
+                        "suspended and released without ever running has no stack yet (init() allocates it before the first run); when it is recycled for the next task of its "
+                        "stack-size class the write goes through a null-based pointer - the process crashes in thread_data_stackful::rebind" % (short, what))
+    if n7s < 2:
+        raise AnalysisBroken("C12.R7: only %d uses of the lazily allocated stack examined" % n7s)
 
     # ---- R3
     PU = facts(rep, lib("coroutines", "src/detail/posix_utility.cpp"), [r"^pika::threads::coroutines::detail::posix::(alloc_stack|free_stack|add_guard_page|stack_size_with_guard_page|to_stack_with(out)?_guard_page)$"])
